@@ -4,8 +4,8 @@ CONSTANTS
   Algs = {"sha1", "sha256"}
   Muts = {"none", "msg_changed"}
   MaxWire = 3
-  Shared = TRUE
-  KeyCache = FALSE
+  Shared = FALSE
+  KeyCache = TRUE
   MaxGen = 1
 INVARIANT TypeOK
 INVARIANT KeyOwnership
